@@ -11,6 +11,8 @@ C06: cost-annotated models of the mechanisms that keep parsing and rendering lin
   * `btStepsNoMemo` the same loop without the flag (what the `$`..`$` scanner does today).
   * `cdSteps`      `scan_to_closing_code_dollar` driven from every opener of a text in which no
                    opener has a closer: no memo, every opener scans to the end.
+  * `emLoop`       `process_emphasis` over an abstract delimiter stack with `openers_bottom[12]`, as pinned
+                   (`fix = false`) and as it should be (`fix = true`), counting opener-search steps.
   * `refLookup`    `RefMap::lookup` with its expansion budget.
   * `autocompleteOk`, `xmlIndent`, `labelScan`, `parenDepth`: the caps.
 Core Lean only.
@@ -115,11 +117,194 @@ def distinctRuns : Nat → List Run
 /-! ## `scan_to_closing_code_dollar` (no memo) -/
 
 /-- Steps of the code-dollar scanner summed over the openers of a text in which no opener has a closer:
-    `pieces` = number of bytes that follow each opener up to the next one; every opener scans everything
-    that is left (1 per byte + 1 for the iteration that hits the end). -/
+    `pieces` = for each `` $` `` opener that the inline loop executes, the number of bytes that follow its
+    `$` up to the `$` of the next executed opener (for the last one: up to the end of the text). Every opener
+    scans everything that is left after its `` $` ``: 1 per byte + 1 for the iteration that hits the end,
+    which is the number of bytes after its `$`. (K showed the first version of this model, with one more
+    step per opener, to be off by one.) -/
 def cdSteps : List Nat → Nat
   | [] => 0
-  | p :: rest => (p + rest.sum + rest.length + 1) + cdSteps rest
+  | p :: rest => (p + rest.sum + rest.length) + cdSteps rest
+
+/-- The pieces of a text of `len` bytes whose executed openers have their `$` at the given positions. -/
+def cdPieces (len : Nat) : List Nat → List Nat
+  | [] => []
+  | [s] => [len - s - 1]
+  | s :: s' :: r => (s' - s - 1) :: cdPieces len (s' :: r)
+
+/-- One call of `scan_to_closing_code_dollar` at byte level; `prev` = the byte before the current
+    position. Result: (steps, bytes consumed up to and including the closing `$`). The closer is a `$`
+    whose preceding byte is a backtick. 1 step per byte passed (the inner `while` for non-`$` bytes, the
+    outer iteration for a `$`) + 1 for the iteration that hits the end. -/
+def cdScan : UInt8 → Bytes → Nat × Option Nat
+  | _, [] => (1, none)
+  | prev, b :: r =>
+    if b = 0x24 ∧ prev = 0x60 then (1, some 1)
+    else
+      let s := cdScan b r
+      (s.1 + 1, s.2.map (· + 1))
+
+/-- `scan_to_closing_backtick` at byte level (no cost): `cur` = length of the backtick run being read.
+    Result: position after the closing run, and the memo. `none` = ran to the end (sets the flag). -/
+def btScanB (L : Nat) : (Nat → Nat) → Nat → Nat → Bytes → Option Nat × (Nat → Nat)
+  | memo, pos, cur, [] =>
+    if cur = 0 then (none, memo)
+    else
+      let memo' : Nat → Nat := if cur ≤ MAXBACKTICKS then (fun k => if k = cur then pos - cur else memo k) else memo
+      (if cur = L then some pos else none, memo')
+  | memo, pos, cur, b :: r =>
+    if b = 0x60 then btScanB L memo (pos + 1) (cur + 1) r
+    else if cur = 0 then btScanB L memo (pos + 1) 0 r
+    else
+      let memo' : Nat → Nat := if cur ≤ MAXBACKTICKS then (fun k => if k = cur then pos - cur else memo k) else memo
+      if cur = L then (some pos, memo') else btScanB L memo' (pos + 1) 0 r
+
+def runLen (c : UInt8) : Bytes → Nat
+  | [] => 0
+  | b :: r => if b = c then runLen c r + 1 else 0
+
+/-- One executed `` $` `` opener: position of its `$`, steps of its scan, whether the scan ran to the end
+    of the text (no `` `$ `` ahead), whether a math span was made (a closer right after the opener is too
+    close: found, but no span). -/
+structure DlEvent where
+  dpos : Nat
+  cost : Nat
+  ranOut : Bool
+  closed : Bool
+  deriving Repr
+
+/-- The inline loop on one-paragraph texts over letters, `$`, backtick and backslash with `math_code` on and
+    `math_dollars` off (`handle_dollars`, `handle_backticks` with its positional memo, `handle_backslash`):
+    the `` $` `` openers it executes. A failed opener resumes at the backtick after the `$` (which then
+    opens a code span if it can); a math span needs `endpos - startpos >= 5`. Fuel: one unit per dispatch. -/
+def dlLoop (inp : Bytes) : Nat → Nat → (Nat → Nat) → Bool → List DlEvent
+  | 0, _, _, _ => []
+  | fuel + 1, pos, memo, scanned =>
+    match inp.drop pos with
+    | [] => []
+    | b :: r =>
+      if b = 0x5C then
+        -- backslash + ASCII punctuation: an escaped character
+        match r with
+        | c :: _ =>
+          if (0x21 ≤ c ∧ c ≤ 0x2F) ∨ (0x3A ≤ c ∧ c ≤ 0x40) ∨ (0x5B ≤ c ∧ c ≤ 0x60) ∨ (0x7B ≤ c ∧ c ≤ 0x7E)
+          then dlLoop inp fuel (pos + 2) memo scanned else dlLoop inp fuel (pos + 1) memo scanned
+        | [] => dlLoop inp fuel (pos + 1) memo scanned
+      else if b = 0x60 then
+        let L := runLen 0x60 r + 1
+        let p := pos + L
+        if MAXBACKTICKS < L then dlLoop inp fuel p memo scanned
+        else if scanned && decide (memo L ≤ p) then dlLoop inp fuel p memo scanned
+        else
+          let s := btScanB L memo p 0 (inp.drop p)
+          match s.1 with
+          | some e => dlLoop inp fuel e s.2 scanned
+          | none => dlLoop inp fuel p s.2 true
+      else if b = 0x24 then
+        let d := runLen 0x24 r + 1
+        if d = 1 ∧ r.head? = some 0x60 then
+          let s := cdScan 0x60 (r.drop 1)
+          match s.2 with
+          | some c =>
+            if 3 ≤ c then ⟨pos, s.1, false, true⟩ :: dlLoop inp fuel (pos + 2 + c) memo scanned
+            else ⟨pos, s.1, false, false⟩ :: dlLoop inp fuel (pos + 1) memo scanned
+          | none => ⟨pos, s.1, true, false⟩ :: dlLoop inp fuel (pos + 1) memo scanned
+        else dlLoop inp fuel (pos + d) memo scanned
+      else dlLoop inp fuel (pos + 1) memo scanned
+
+def dlEvents (inp : Bytes) : List DlEvent := dlLoop inp (inp.length + 1) 0 (fun _ => 0) false
+
+/-- The `dollar-scan` counter of the text. -/
+def dlSteps (inp : Bytes) : Nat := ((dlEvents inp).map (·.cost)).sum
+
+/-! ## `process_emphasis` (src/parser/inlines.rs): the opener search with `openers_bottom`
+
+The delimiter stack is a zipper: `left` = the delimiters below the current closer (nearest first),
+`right` = the closer and what is above it. A delimiter keeps the `length` it was pushed with (the code
+never updates that field; it is what `% 3` and the rule of three look at) and, separately, the current
+number of characters of its text node (`cur`, truncated by `insert_emph`). Only the branch for
+emphasis-like characters is modelled (`*`, `_`, and `~ ^ |` when their extensions are on; not the smart
+quotes, and not the `~` length-mismatch exit of `insert_emph`).
+Counted: exactly what the hook counter `emphasis-opener-search` counts - 1 per iteration of the outer
+closer loop + 1 per iteration of the inner opener search. -/
+
+structure Delim where
+  ch : UInt8
+  /-- `Delimiter::length`: the run length at push time, immutable -/
+  len : Nat
+  /-- current length of the text node -/
+  cur : Nat
+  canOpen : Bool
+  canClose : Bool
+  /-- `Delimiter::position` (strictly increasing up the stack) -/
+  pos : Nat
+  deriving DecidableEq, Repr
+
+/-- Index into `openers_bottom`: `| ~ ^ " ' _` have one entry each, `*` has 6 (can_open x length % 3). -/
+def bottomIx (c : Delim) : Nat :=
+  if c.ch = 0x7C then 0 else if c.ch = 0x7E then 1 else if c.ch = 0x5E then 2
+  else if c.ch = 0x22 then 3 else if c.ch = 0x27 then 4 else if c.ch = 0x5F then 5
+  else 6 + (if c.canOpen then 3 else 0) + c.len % 3
+
+/-- The rule of three (`odd_match`). -/
+def oddMatch (o c : Delim) : Bool :=
+  (c.canOpen || o.canClose) && ((o.len + c.len) % 3 == 0) && !(o.len % 3 == 0 && c.len % 3 == 0)
+
+structure Search where
+  cost : Nat
+  /-- `mod_three_rule_invoked` -/
+  mod3 : Bool
+  /-- the opener found and what is below it (everything above it is dropped by `insert_emph`) -/
+  hit : Option (Delim × List Delim)
+
+/-- The inner loop: walk down from the closer while `position >= openers_bottom[ix]`. -/
+def emSearch (c : Delim) (bottom : Nat) : List Delim → Search
+  | [] => ⟨0, false, none⟩
+  | o :: below =>
+    if o.pos < bottom then ⟨0, false, none⟩
+    else if o.canOpen && o.ch == c.ch then
+      if oddMatch o c then
+        let s := emSearch c bottom below
+        ⟨s.cost + 1, true, s.hit⟩
+      else ⟨1, false, some (o, below)⟩
+    else
+      let s := emSearch c bottom below
+      ⟨s.cost + 1, s.mod3, s.hit⟩
+
+/-- `insert_emph`: 2 characters of each delimiter are used if both have 2, else 1. -/
+def useChars (o c : Delim) : Nat := if 2 ≤ c.cur ∧ 2 ≤ o.cur then 2 else 1
+
+/-- `insert_emph`: a delimiter with no characters left leaves the stack, otherwise its text is truncated. -/
+def shrink (d : Delim) (use : Nat) (rest : List Delim) : List Delim :=
+  if d.cur ≤ use then rest else { d with cur := d.cur - use } :: rest
+
+/-- The outer loop. `fix = false`: the pinned code (`openers_bottom[ix]` is not updated after a failed
+    search during which the rule of three skipped a candidate); `fix = true`: updated after every failed
+    search. `none` = fuel exhausted. -/
+def emLoop (fix : Bool) : Nat → (Nat → Nat) → List Delim → List Delim → Option Nat
+  | _, _, _, [] => some 0
+  | 0, _, _, _ :: _ => none
+  | fuel + 1, bot, left, c :: above =>
+    if c.canClose then
+      let s := emSearch c (bot (bottomIx c)) left
+      match s.hit with
+      | some (o, below) =>
+        -- insert_emph: use 2 characters of each if both have 2, else 1; used-up delimiters leave the stack;
+        -- a closer with characters left is matched again
+        (emLoop fix fuel bot (shrink o (useChars o c) below) (shrink c (useChars o c) above)).map (1 + s.cost + ·)
+      | none =>
+        let bot' : Nat → Nat := if fix || !s.mod3 then (fun k => if k = bottomIx c then c.pos else bot k) else bot
+        (emLoop fix fuel bot' (if c.canOpen then c :: left else left) above).map (1 + s.cost + ·)
+    else (emLoop fix fuel bot (c :: left) above).map (1 + ·)
+
+def sumCur : List Delim → Nat
+  | [] => 0
+  | d :: ds => d.cur + sumCur ds
+
+/-- `process_emphasis(0)` on a whole inline text; the fuel is the termination measure
+    (characters left + delimiters still to visit), see `emphasis_terminates`. -/
+def emSteps (fix : Bool) (ds : List Delim) : Option Nat :=
+  emLoop fix (sumCur ds + ds.length) (fun _ => 0) [] ds
 
 /-! ## Reference expansion budget (`RefMap::lookup`) -/
 
